@@ -1,4 +1,4 @@
-"""Facts for C19 (argument checking): the two error codes, the code every `raise` site of
+"""Facts for C19 (argument checking): the two error codes, the code every `raise` statement of
 `handler_invocation` resolves to, behavioural probes of the real `handler_invocation` on every
 well-formed signature with at most two parameters, and fingerprints of the modelled functions.
 
@@ -123,43 +123,20 @@ def _resolve_raise(node, jsonrpc):
     return None
 
 
-def _mentions_handler_none(test):
-    for n in ast.walk(test):
-        if isinstance(n, ast.Compare) and len(n.ops) == 1 and isinstance(n.ops[0], ast.Is) \
-                and isinstance(n.comparators[0], ast.Constant) and n.comparators[0].value is None \
-                and isinstance(n.left, ast.Name) and n.left.id == 'handler':
-            return True
-        if isinstance(n, ast.UnaryOp) and isinstance(n.op, ast.Not) \
-                and isinstance(n.operand, ast.Name) and n.operand.id == 'handler':
-            return True
-    return False
-
-
-def raise_sites(tree, jsonrpc):
+def raise_codes(tree, jsonrpc):
+    """the code carried by every resolvable `raise` statement inside `handler_invocation`, in
+    source order (guards are not interpreted: which code goes with which situation is a
+    behavioural fact, see `no_handler_code` and the probes)"""
     fn = common.find(tree, 'handler_invocation')
     out = []
     if fn is None:
         return out
-
-    def walk(stmts, under_none):
-        for s in stmts:
-            if isinstance(s, ast.Raise):
-                code = _resolve_raise(s, jsonrpc)
-                if code is not None:
-                    out.append((under_none, code))
-            elif isinstance(s, ast.If):
-                walk(s.body, under_none or _mentions_handler_none(s.test))
-                walk(s.orelse, under_none)
-            else:
-                for field in ('body', 'orelse', 'finalbody', 'handlers'):
-                    sub = getattr(s, field, None)
-                    if isinstance(sub, list):
-                        walk([x for x in sub if isinstance(x, ast.stmt)], under_none)
-                        for h in sub:
-                            if isinstance(h, ast.ExceptHandler):
-                                walk(h.body, under_none)
-    walk(fn.body, False)
-    return out
+    for node in ast.walk(fn):
+        if isinstance(node, ast.Raise) and node.exc is not None:
+            code = _resolve_raise(node, jsonrpc)
+            if code is not None:
+                out.append((node.lineno, node.col_offset, code))
+    return [c for _, _, c in sorted(out)]
 
 
 # ------------------------------------------------------------------ probes
@@ -212,7 +189,7 @@ def extract(repo):
         'invalid_args': invalid_args,
         'method_not_found': int(jsonrpc.JSONRPC.METHOD_NOT_FOUND),
         'no_handler_code': observe(jsonrpc, None, []),
-        'raise_sites': raise_sites(tree, jsonrpc),
+        'raise_codes': raise_codes(tree, jsonrpc),
         'probes': probes(jsonrpc),
         'fingerprints': common.fingerprints(repo, {
             'aiorpcx/util.py': ['signature_info', 'SignatureInfo'],
@@ -231,7 +208,7 @@ def _int(i):
 
 
 def render(f):
-    sites = ', '.join(f'({_b(n)}, {_int(c)})' for n, c in f['raise_sites'])
+    sites = ', '.join(_int(c) for c in f['raise_codes'])
     rows = []
     for sig, (named, cnt, names), obs in f['probes']:
         s = '[' + ', '.join(f'({k}, {n}, {_b(d)})' for k, n, d in sig) + ']'
@@ -247,9 +224,9 @@ def render(f):
         f'def methodNotFound : Int := {_int(f["method_not_found"])}\n'
         '/-- code observed from the real `handler_invocation(None, Request("m", []))` -/\n'
         f'def noHandlerCode : Int := {_int(f["no_handler_code"])}\n'
-        '/-- every resolvable `raise` in `handler_invocation`, in source order:\n'
-        '    (is it under the `handler is None` test, the code it carries) -/\n'
-        f'def raiseSites : List (Bool × Int) := [{sites}]\n'
+        '/-- the code carried by every resolvable `raise` statement in `handler_invocation`,\n'
+        '    in source order -/\n'
+        f'def raiseCodes : List Int := [{sites}]\n'
         '/-- the real `handler_invocation` on every well-formed signature with <= 2 parameters\n'
         '    (kind rank po=0 pk=1 vp=2 ko=3 vk=4, name, has default) and every call shape\n'
         '    (named?, positional count, names; 9 = a name the signature does not have):\n'
